@@ -18,6 +18,9 @@ CLAIMED = {
  "C17": ("4.7", "seeded search over generation histories: one InstanceDecoder and one or two Hardness/ErrorsAndHardness objects are driven through decode(x) calls (uniform, clipped-to-the-box and repeated vectors, fresh or reused receivers, 0-8 slack pairs) and objective evaluations on decoded instances and the template, repeated after other instances of the same name; every decoded instance is checked for name, bin size, item count, the area window, lower bound = template bin need and packability by a position-tracking witness layout judged by the independent packing predicate; equal vectors must give equal instances and repeated evaluations equal values, also in a fresh interpreter under another hash seed. A clean batch is evidence, not proof.",
          "trusted: packing feasibility predicate, moptipy Execution/RLS/rand_seeds_from_str; a missing witness is recorded as undecided, never as a violation",
          "deterministic simulation with fault injection (seeded randomness + nested seeded runs under operation histories; replay equality across histories and interpreters; witness construction)"),
+ "C12": ("4.5", "seeded search over experiment schedules: a results directory is visited by 1-3 boots, each a fresh interpreter with its own hash seed, simulated clock (fixed, random tick, forward jumps), seeded stand-in for the runner's unseeded shuffles, warm-up settings and growing n_runs lists; a fake peer claims and later completes log files; directory evaluation runs under permuted listing orders; crash points kill a boot at the n-th clock read or after n log bytes and the next boot restarts. Every completed log is compared with a history-free single run in its own interpreter, its solution is checked by independent feasibility predicates and re-evaluated by independent objective implementations (7 packing objectives, tour length, QAP sum, TTP error count; fresh objective in a fresh interpreter for instance generation and controller synthesis), and bin-packing logs are parsed back (Packing.from_log, PackingResult). A clean batch is evidence, not proof.",
+         "trusted: moptipy's claim/skip semantics and log writer, instance loaders, the independent oracles in simkit/oracles; a run in flight at a crash may be lost (moptipy semantics)",
+         "deterministic simulation with fault injection (multi-process boots over durable files: schedule, clock, peers, crash/restart; history-free reference runs)"),
  "C14": ("4.1", "seeded search over histories of decodings that share one encoder object and one or two destination packings, with scribbled scratch/destination state injected between operations; every decode is compared row by row with an executable reference model of the documented bottom-left rule. A clean batch is evidence, not proof.",
          "trusted: the reference model in simkit/oracles/packing.py (derived from the module docstrings), numba, numpy, moptipy",
          "deterministic simulation with fault injection (shared-object operation histories + state scribbling vs. reference model)"),
